@@ -58,7 +58,17 @@ func c01load(g *Gen, i int, prog []GenPkg) (types.Universe, error) {
 		}
 	}
 	p := parser.New()
-	if err := p.LoadPackagesWithConfigForTesting(&packages.Config{Dir: dir, Env: append(os.Environ(), "GOFLAGS=-mod=mod", "GOWORK=off")}, pats...); err != nil {
+	cfg := &packages.Config{Dir: dir, Env: append(os.Environ(), "GOFLAGS=-mod=mod", "GOWORK=off")}
+	if c01lastFirst && len(pats) > 1 {
+		// the last package first (the earlier ones arrive as its dependencies), then the others, one call each
+		for k := len(pats) - 1; k >= 0; k-- {
+			if err := p.LoadPackagesWithConfigForTesting(cfg, pats[k]); err != nil {
+				return nil, err
+			}
+		}
+		return p.NewUniverse()
+	}
+	if err := p.LoadPackagesWithConfigForTesting(cfg, pats...); err != nil {
 		return nil, err
 	}
 	return p.NewUniverse()
